@@ -270,8 +270,63 @@ def shard2(job) -> dict:
     return acc.out()
 
 
+# ------------------------------------------------------------------ layer 3
+def patterns(n: int):
+    """Deterministic access-pattern families over n+2 keys for a table of size n."""
+    m = n + 2
+    keys = [f"k{i}" for i in range(m)]
+    yield "scan x3", keys * 3
+    yield "scan then reverse", keys + keys[::-1] + keys
+    yield "hit/miss alternation", [k for i in range(2 * m) for k in (keys[0], keys[(i % (m - 1)) + 1])]
+    yield "stride 3", [keys[(3 * i) % m] for i in range(3 * m)]
+    yield "working set n then sweep", keys[:n] * 2 + keys[n:] + keys[:n]
+
+
+def shard3(job) -> dict:
+    """Large table sizes (varint and limit boundaries): linear histories, full oracle per step."""
+    rule, n = job
+    acc = pool.Acc()
+    for label, hist in patterns(n):
+        st = Pair(rule, n)
+        if rule == "prefix":
+            hist = [""] + hist[: len(hist) // 2] + [""] + hist[len(hist) // 2:] + [""]
+        for i, k in enumerate(hist):
+            acc.evals += 1
+            fails = step1(st, k) if (i % 64 == 0 or n <= 300) else step1_light(st, k)
+            if fails:
+                acc.violation({"layer": 3, "rule": rule},
+                              f"{rule} table size {n}, pattern '{label}', step {i} use({k!r}): "
+                              + "; ".join(fails[:2]),
+                              {"layer": 3, "rule": rule, "n": n, "pattern": label, "step": i})
+                break
+    acc.extra = {"layer": 3, "rule": rule, "n": n, "states": 0,
+                 "transitions": acc.evals, "closed": False, "max_depth": 0, "depth_complete": 0}
+    acc.sample({"layer": 3, "rule": rule, "n": n, "patterns": [p for p, _ in patterns(4)]}, cap=1)
+    return acc.out()
+
+
+def step1_light(st: Pair, k: str) -> list[str]:
+    """step1 without the O(n) full-mirror scan (used between full checks on huge tables)."""
+    n = st.n
+    try:
+        eid = st.enc.encode_entry_index(k)
+        if eid is not None:
+            if not 0 <= eid <= n:
+                return [f"entry id {eid!r} outside [0,{n}]"]
+            st.dec.assign_entry(eid, k)
+        tid = getattr(st.enc, f"encode_{st.rule}_term_index")(k)
+        if not 0 <= tid <= n:
+            return [f"term index {tid!r} outside [0,{n}]"]
+        got = getattr(st.dec, f"decode_{st.rule}_term_index")(tid)
+        if got != k:
+            return [f"use({k!r}): wire index {tid} resolves to {got!r} on the reader"]
+    except Exception as e:  # noqa: BLE001
+        return [f"use({k!r}) raised {type(e).__name__}: {e}"]
+    return []
+
+
 def _dispatch(job) -> dict:
-    return {"l1": shard1, "orbit": shard_orbit, "l2": shard2}[job[0]](job[1])
+    return {"l1": shard1, "orbit": shard_orbit, "l2": shard2, "l3": shard3}[job[0]](job[1])
 
 
 # ---------------------------------------------------------------------- run
@@ -298,12 +353,19 @@ def run(ctx) -> None:
             jobs.append(("orbit", (rule, n)))
     for g in glue:
         jobs.append(("l2", g))
+    big = [9, 10, 16, 31, 32, 33, 63, 64, 65, 127, 128, 129, 255, 256, 257, 1023, 4095, 4096] \
+        if ctx.quick else list(range(9, 300)) + [511, 512, 1023, 1024, 2047, 2048, 4095, 4096]
+    for rule in RULES:
+        for n in big:
+            jobs.append(("l3", (rule, n)))
     # biggest first so the pool stays busy
     def weight(j):
         if j[0] == "l1":
             return (8.5 if j[1][0] == "prefix" else 7) ** j[1][1]
         if j[0] == "l2":
             return min(j[1][5], 60000) * 30
+        if j[0] == "l3":
+            return j[1][1] * 40
         return 7 ** (j[1][1] + 2)
     jobs.sort(key=weight, reverse=True)
     merged = pool.merge(pool.pmap(_dispatch, jobs))
@@ -323,7 +385,8 @@ def run(ctx) -> None:
         traces_validated_against_impl=transitions,
         samples=merged["samples"],
         exhaustive=all(t["closed"] for t in tables if t["layer"] == 1),
-        searches=sorted(tables, key=lambda t: (t["layer"], str(t.get("rule")), t.get("n", 0),
+        large_table_sizes_swept=sorted({t["n"] for t in tables if t["layer"] == 3}),
+        searches=sorted([t for t in tables if t["layer"] != 3], key=lambda t: (t["layer"], str(t.get("rule")), t.get("n", 0),
                                                t.get("sizes", []))),
         symmetry_validation=sorted(orbits, key=lambda o: (o["rule"], o["n"])),
         rule=(
@@ -331,7 +394,9 @@ def run(ctx) -> None:
             "use(k) for n+2 keys (+ the empty prefix), states identified modulo renaming of "
             "ordinary keys; every transition executes the real encode/assign/decode calls, so "
             "traces_validated_against_impl == transitions; closed=true means fixpoint reached "
-            "(holds for histories of any length)"
+            "(holds for histories of any length); layer 3: for large table sizes (varint and "
+            "4096-limit boundaries) five deterministic access-pattern families over n+2 keys with the "
+            "same per-step oracle (linear histories, not a state-space closure)"
         ),
     )
     ctx.assumptions += [
@@ -342,6 +407,16 @@ def run(ctx) -> None:
 
 
 def replay(case: dict) -> list:
+    if case["layer"] == 3:
+        hist = dict(patterns(case["n"]))[case["pattern"]]
+        if case["rule"] == "prefix":
+            hist = [""] + hist[: len(hist) // 2] + [""] + hist[len(hist) // 2:] + [""]
+        st = Pair(case["rule"], case["n"])
+        for k in hist[: case["step"] + 1]:
+            out = step1(st, k)
+            if out:
+                return out
+        return []
     if case["layer"] == 1:
         st = Pair(case["rule"], case["n"])
         out: list = []
